@@ -29,8 +29,11 @@ def configs(gen):
             # removed track / a removed crate so that one symbolic operation can be the rejected one and the next the write
             out.append(dict(gen=gen, schema=sc, **c08.pre('after-removals'), nsym=2, kinds=0x7ff))
             out.append(dict(gen=gen, schema=sc, **c08.pre('crate-removed'), nsym=2, kinds=0x7ff))
+            # a crate removed together with its sub-crate, then new crates (ids may be handed out again): what a per-connection cache keyed by id gets wrong (seeded change C10-2)
+            out.append(dict(gen=gen, schema=sc, **c08.pre('parent-removed'), nsym=2, kinds=0x7ff))
             if not Q:
                 out.append(dict(gen=gen, schema=sc, **c08.pre('two-roots'), nsym=2, kinds=0x7ff))
+    for c in out: c['peek'] = 1 if (c['nsym'] == 1 or c['shape'] == 'parent-removed') else 0      # (peeking doubles the statements of a history: the long two-operation runs stay without)
     return out
 def main():
     ck = Check('C10'); ck.assert_filter = r'C10'
